@@ -10,7 +10,7 @@ LEVEL_NOTE = ("Theorems over Z coordinates for every record, rotation amount and
               "modules.py / vectors.py / _assembly.py tied by comparing the product's ordered feature table "
               "(type, label, strand, coordinates) with the model's, and by a label-based denotation oracle.")
 
-IMPORTS = """From MV Require Import Base Record Regex Typing Pipeline Annot AnnotPipeline Glue.
+IMPORTS = """From MV Require Import Base Record Regex Typing Pipeline Annot AnnotPipeline KitLookup Glue.
 From Coq Require Import String.
 Open Scope Z_scope.
 Definition check (c : list (cls * record) * option record) : bool :=
@@ -238,16 +238,17 @@ def c_elements(ctx, case, res):
     return "[" + "; ".join(es) + "]"
 
 
-def c_product(case, res):
+def c_product(case, res, ids=None):
     view = res["product"]
     q = case["q"]
-    ids = [case["elements"][i]["rec"]["id"] for i in list(range(q)) + [q]]
+    ids = ids or [case["elements"][i]["rec"]["id"] for i in list(range(q)) + [q]]
     feats = []
     for f in view["features"]:
         g = dict(f)
         if "plasmid" in f:
             pid = f["plasmid"][0] if isinstance(f["plasmid"], list) else f["plasmid"]
-            g["q"] = 900 + (ids.index(pid) if pid in ids else 99)
+            # provenance features inherited from an earlier level keep the (empty) label they had in the input
+            g["q"] = 900 + ids.index(pid) if pid in ids else None
         feats.append(g)
     return "(Some %s)" % recutil.c_record({"seq": view["seq"], "features": feats})
 
